@@ -201,6 +201,33 @@ def kexcl(ctx, exe, k, nproc, nthr, iters, stats):
         agents.sweep([agents.sem_path(name), shf])
 
 
+def churn(ctx, exe, nproc, iters, ownpct, stats, tag):
+    """processes open(OPEN, 1) / maybe take ownership / acquire / release / free the same name concurrently: every fresh counter starts at 1 and
+    every process gives back what it took, so no acquire may block for good (an open racing with an owner free must not produce a counter of 0)"""
+    name = "vfC06-%d-%d-churn-%s" % (os.getpid(), ctx.seed, tag)
+    ags = [agents.Agent(exe, name="ch%d" % i) for i in range(nproc)]
+    try:
+        t0 = int(ags[0].cmd("now").split()[1]) + 20_000_000
+        for a in ags:
+            a.send("at %d churn %s %d %d" % (t0, name, iters, ownpct))
+        for a in ags:
+            try:
+                r = a.recv(timeout=60)
+            except agents.AgentTimeout:
+                ctx.violation("churn symptom=acquire-blocked-forever", "%d processes looping open(OPEN,1)/take_ownership(%d%%)/acquire/release/free on one name: an acquire never returned although every fresh counter "
+                              "starts at 1 and every holder releases (counter file value: %s)" % (nproc, ownpct, agents.sem_file_value(agents.sem_path(name))), None)
+                return
+            if not r.startswith("ok"):
+                ctx.violation("churn symptom=acquire-failed", r, None)
+                return
+            stats["churn_rounds"] += int(r.split()[1])
+            stats["churn_open_failures"] += int(r.split()[2])
+    finally:
+        for a in ags:
+            a.kill()
+        agents.sweep([agents.sem_path(name)])
+
+
 SCRIPTS = {
     "open-use-own-free": ["new 0 {n} 2 o", "acq 0", "rel 0", "own 0", "free 0"],
     "create-second-handle": ["new 0 {n} 1 c", "acq 0", "new 1 {n} 5 o", "rel 1", "free 1", "own 0", "free 0"],
@@ -337,7 +364,7 @@ def run(ctx):
     exe = build.driver("asan", "ipc_agent", ["ipc_agent.c", "wrap_sys.c"], wraps=build.WRAPS_ALL)
     plain = build.driver("plain", "ipc_agent", ["ipc_agent.c", "wrap_sys.c"], wraps=build.WRAPS_ALL)
     stats = {k: 0 for k in ("ops", "new_open_fresh", "new_open_existing", "new_create_fresh", "new_create_existing", "acquire", "release", "own", "free_owner", "free_plain", "block_probes",
-                            "kexcl_entries", "kexcl_max_seen", "crash_points", "crash_not_fired", "recoveries", "strace_points", "histories")}
+                            "kexcl_entries", "kexcl_max_seen", "churn_rounds", "churn_open_failures", "crash_points", "crash_not_fired", "recoveries", "strace_points", "histories")}
     stats["crash_script_calls"] = {}
     nh = 150 if q else 2500
     rngs = [random.Random(ctx.seed * 100003 + i) for i in range(nh)]
@@ -357,6 +384,8 @@ def run(ctx):
         ctx.sample({"history": s})
     for (k, np_, nt, it) in ([(1, 2, 2, 300), (3, 3, 4, 200)] if q else [(1, 2, 2, 3000), (2, 3, 4, 2000), (3, 4, 8, 1000), (5, 8, 8, 500), (1, 8, 8, 300)]):
         kexcl(ctx, plain, k, np_, nt, it, stats)
+    for j, (np_, it, own) in enumerate([(3, 1500, 50), (4, 1000, 100)] if q else [(2, 30000, 50), (3, 20000, 30), (4, 20000, 100), (8, 10000, 60), (16, 4000, 50)]):
+        churn(ctx, plain, np_, it, own, stats, str(j))
     crash_points(ctx, exe, stats, ["open-use-own-free", "create-second-handle"] if q else list(SCRIPTS))
     if not q:
         strace_points(ctx, plain, stats)
